@@ -43,10 +43,22 @@ for w in WS:
     SOUND.append((f"i{w}_overflowing_sub", f"iarith_sound Z.sub {w} " + ("1 1" if w == 128 else "2 1"), "ISub"))
 
 EXTRA = os.path.join(ROOT, "props", "gen_h03_props_extra.py")
+UP8 = [u for u in UPCASTS if u.startswith("upcast_u8_") or u.startswith("upcast_i8_")]
 COMPLETE = [
-    ("u8_overflowing_add", "uarith_complete uadd 8", "UAddSubC"),
-    ("u8_overflowing_sub", "uarith_complete usub 8", "UAddSubC"),
-]
+    ("u8_overflowing_add", "uarith_complete uadd 8", "C8a"),
+    ("u8_overflowing_sub", "uarith_complete usub 8", "C8a"),
+    ("u8_eq", "ueq_complete 8", "C8a"),
+    ("u8_wide_mul", "uwide_mul_complete 8", "C8a"),
+    ("u8_safe_divmod", "udivmod_complete 8 3", "C8a"),
+    ("i8_overflowing_add", "iarith_complete Z.add 8 2 1", "C8b1"),
+    ("i8_overflowing_sub", "iarith_complete Z.sub 8 2 1", "C8b2"),
+    ("i8_eq", "ieq_complete 8", "C8b3"),
+    ("i8_wide_mul", "iwide_mul_complete 8", "C8b4"),
+    ("u8_is_zero", "is_zero_complete 8", "C8c"),
+    ("u8_to_felt252", "uident_complete 8", "C8c"),
+    ("u8_sqrt", "usqrt_complete 8", "C8c"),
+    ("i8_to_felt252", "iident_complete 8", "C8c"),
+] + [(u, ("uident_complete 8" if u.startswith("upcast_u8") else "iident_complete 8"), "C8c") for u in UP8]
 if os.path.exists(EXTRA):
     exec(open(EXTRA).read())
 
